@@ -1,6 +1,9 @@
 """C12 — semaphores: sliding-window semantics and permit conservation"""
 from harness import common as H
 
+# private-attribute groups (vlib/layout.py) the obligations of this module depend on
+LAYOUT = ['manager', 'coord', 'task', 'bex', 'tasksem', 'sws']
+
 EXPLANATION = (
     'C12: the real SlidingWindowSemaphore is checked (a) by one inductive step from an ARBITRARY state satisfying the '
     'representation invariant (sequence numbers and capacity unbounded symbolic integers, <= 2 tags, <= 2 pending '
